@@ -12,7 +12,7 @@ from .core import RULES, Ctx, AnalysisError, VERIF
 
 def load_rules():
     # importing the modules registers the rules
-    from . import rules_tables, rules_grammar, rules_paths, rules_layout, rules_locks, rules_framework, rules_client, rules_history, rules_frag  # noqa
+    from . import rules_tables, rules_grammar, rules_paths, rules_layout, rules_locks, rules_framework, rules_client, rules_history, rules_frag, rules_regex  # noqa
     from . import props
     return props
 
